@@ -120,6 +120,10 @@ pub fn gen_case(prop: &str, tier: Tier, seed: u64, idx: u64) -> Option<Case> {
                 o.max_video = 400;
                 o.max_audio = 600;
             }
+            if r.chance(1, 60) {
+                // several days of audio and video (positions beyond 2^32 ticks after the start)
+                return Some(crate::run2::c16_case(r, 14));
+            }
             hist_case(gen_history(r, &o))
         }
         "C02" => {
@@ -220,7 +224,11 @@ pub fn gen_case(prop: &str, tier: Tier, seed: u64, idx: u64) -> Option<Case> {
             // (fragments of many hundreds of samples)
             let long = r.chance(1, if thorough { 100 } else { 250 });
             let o = FragOpts { big: r.chance(1, 8), constant_interval_pct: if prop == "C11" { 45 } else { 15 }, max_ops: if long { 1500 } else { 50 }, long_fragments: long && r.chance(2, 3), ..Default::default() };
-            let (h, side) = gen_frag_history(r, &o);
+            let (mut h, side) = gen_frag_history(r, &o);
+            if r.chance(1, 3000) {
+                // a fragment of more than 65535 samples
+                h.ops = crate::gen::frag::huge_fragment_ops(r);
+            }
             Case::Frag { h, side: Side { av1: side, vp9: None, op: 0 } }
         }
         _ => return crate::run2::gen_case2(prop, tier, seed, idx, r),
@@ -589,7 +597,13 @@ pub fn eval_case(prop: &str, case: &Case, obs: &mut Obs) -> Vec<Violation> {
             };
             let (e1, s1) = go(&hf);
             let (e2, s2) = go(&hs);
-            if e1.any_panic() || e2.any_panic() {
+            if e1.any_panic() != e2.any_panic() {
+                // the same calls end in a panic under one layout only: the layouts do not describe
+                // the same movie (a panic under both is C12's business)
+                let which = if e1.any_panic() { "fast-start" } else { "standard" };
+                return vec![Violation::new("C08", format!("one-layout-panics|{}", which), format!("{}: only the {} run panicked: {:?}", h.brief(), which, e1.results.iter().chain(e2.results.iter()).find(|r| matches!(r, Res::Panic { .. })).map(|r| r.brief())))];
+            }
+            if e1.any_panic() {
                 obs.inconclusive += 1;
                 return vec![];
             }
@@ -605,7 +619,8 @@ pub fn eval_case(prop: &str, case: &Case, obs: &mut Obs) -> Vec<Violation> {
             mon::c08::check(&a1, &a2, obs)
         }
         ("C10", Case::Frag { h, .. }) | ("C11", Case::Frag { h, .. }) => {
-            let ex = run_frag(h, &ExecOpts { snapshots: true, ..Default::default() });
+            // (state snapshots render the whole queue: not for fragments of tens of thousands of samples)
+            let ex = run_frag(h, &ExecOpts { snapshots: h.ops.len() < 20_000, ..Default::default() });
             if ex.results.iter().any(|r| matches!(r, FRes::Panic { .. })) {
                 obs.inconclusive += 1;
                 obs.count("histories_ending_in_panic(C12's business)", 1);
